@@ -57,6 +57,12 @@ func (g *gen) items(depth int, inSlotTemplate bool) []*item {
 			callees := []string{g.prefix + "Card", g.prefix + "Twice", g.prefix + "Ign", g.prefix + "Card"}
 			callees = append(callees, g.mids...)
 			callees = append(callees, hand...)
+			// hand-written layers that take components as ARGUMENTS: a component (not a block) handed to Flush as
+			// its children; Join rendering several block consumers with one context
+			callees = append(callees, "flushWith("+g.prefix+"Card"+tgen.CallArgs+")", "flushWith("+g.prefix+"Twice"+tgen.CallArgs+")",
+				"templ.Join(onceA.Once(), onceB.Once())", "templ.Join(ignore(), onceA.Once(), templ.Flush())",
+				// a callee EXPRESSION that renders a slot-bearing component while it is evaluated
+				"eager(ctx, "+g.prefix+"Card"+tgen.CallArgs+")", "eager(ctx, "+g.prefix+"Twice"+tgen.CallArgs+")")
 			c := &item{kind: "call", callee: rng.Pick(g.r, callees)}
 			if g.r.Intn(3) != 0 {
 				c.hasBlk = true
@@ -183,6 +189,10 @@ func (o *oracle) call(callee string, slot func() string) string {
 		return "{" + slot() + "}"
 	case "hflush()":
 		return "<f>" + slot() + "</f>"
+	case "templ.Join(onceA.Once(), onceB.Once())":
+		return o.call("onceA.Once()", slot) + o.call("onceB.Once()", slot)
+	case "templ.Join(ignore(), onceA.Once(), templ.Flush())":
+		return o.call("ignore()", slot) + o.call("onceA.Once()", slot) + o.call("templ.Flush()", slot)
 	case "ignore()":
 		return "(i)"
 	case `templ.Raw("<r>")`:
@@ -196,6 +206,20 @@ func (o *oracle) call(callee string, slot func() string) string {
 		o.onces[callee] = true
 		return slot()
 	}
+	if strings.HasPrefix(callee, "eager(ctx, ") {
+		inner := strings.TrimSuffix(strings.TrimPrefix(callee, "eager(ctx, "), ")")
+		if i := strings.Index(inner, "("); i >= 0 {
+			inner = inner[:i]
+		}
+		return "<e>" + o.call(inner, func() string { return "" }) + "</e>" // rendered without a block; eager's own block is ignored
+	}
+	if strings.HasPrefix(callee, "flushWith(") {
+		inner := strings.TrimSuffix(strings.TrimPrefix(callee, "flushWith("), ")")
+		if i := strings.Index(inner, "("); i >= 0 {
+			inner = inner[:i]
+		}
+		return o.call(inner, func() string { return "" }) // the component is called without a block: no children
+	}
 	d, ok := o.defs[callee]
 	if !ok {
 		return "?" + callee
@@ -204,7 +228,7 @@ func (o *oracle) call(callee string, slot func() string) string {
 }
 
 func Run(c *core.Ctx) {
-	c.Rule = "programs: random component call trees (depth <= 4) over generated callees that use (Card), repeat (Twice) or ignore (Ign) their slot, intermediate templates that pass their own children on inside a nested block (Mid), two-iteration for loops around calls, and hand-written callees (wrap, capt - which renders its children into a plain non-flushable bytes.Buffer -, hflush - which renders templ.Flush() with its children into a plain writer -, ignore, templ.Raw, two once handles, templ.Flush), with and without blocks, siblings after unconsumed blocks; each block carries unique marker texts; distinct non-trivial = distinct entry templates rendered"
+	c.Rule = "programs: random component call trees (depth <= 4) over generated callees that use (Card), repeat (Twice) or ignore (Ign) their slot, intermediate templates that pass their own children on inside a nested block (Mid), two-iteration for loops around calls, and hand-written callees (wrap, capt - which renders its children into a plain non-flushable bytes.Buffer -, hflush - which renders templ.Flush() with its children into a plain writer -, flushWith(c) - which hands a component to templ.Flush() as children -, templ.Join of once handles / Flush, eager(ctx, c) - whose call expression renders a slot-bearing component while it is evaluated -, ignore, templ.Raw, two once handles, templ.Flush), with and without blocks, siblings after unconsumed blocks; each block carries unique marker texts; distinct non-trivial = distinct entry templates rendered"
 	c.Proofs()
 	nFiles := c.N(60, 800)
 	per := 120
